@@ -72,6 +72,7 @@ type Explorer struct {
 	ReachCount   map[string]int
 	Notes        map[string]int
 	Funcs        map[string]*FuncStat
+	Blocks       map[*ssa.BasicBlock]struct{} // basic blocks of repository functions entered on some path
 	Intrinsics   map[string]int
 	Assumptions  []string
 	PanicSamples map[string]int
@@ -89,7 +90,7 @@ func NewExplorer(prog *ssa.Program, entry *ssa.Function, cfg Config) *Explorer {
 	x := &Explorer{Cfg: cfg, Prog: prog, Entry: entry,
 		overrides: map[string]*ssa.Function{}, skipInit: map[string]bool{},
 		violCount: map[string]int{}, Inconcl: map[string]int{}, Reached: map[string]*Witness{}, ReachCount: map[string]int{},
-		Notes: map[string]int{}, Funcs: map[string]*FuncStat{}, Intrinsics: map[string]int{}, PanicSamples: map[string]int{}, QSites: map[string]int{}}
+		Notes: map[string]int{}, Funcs: map[string]*FuncStat{}, Blocks: map[*ssa.BasicBlock]struct{}{}, Intrinsics: map[string]int{}, PanicSamples: map[string]int{}, QSites: map[string]int{}}
 	x.cond = sync.NewCond(&x.mu)
 	if rt := prog.ImportedPackage("runtime"); rt != nil {
 		if m := rt.Type("errorString"); m != nil {
@@ -185,6 +186,7 @@ type Worker struct {
 	byteConsts [256]*Term
 	stats      Stats
 	funcs      map[*ssa.Function]*FuncStat
+	blocks     map[*ssa.BasicBlock]struct{}
 	intr       map[string]int
 	pureBlock  map[*ssa.BasicBlock]bool
 	qsite      map[string]int
@@ -214,7 +216,7 @@ func (x *Explorer) Run() error {
 		if err != nil {
 			return err
 		}
-		w := &Worker{X: x, tb: NewTB(), S: s, funcs: map[*ssa.Function]*FuncStat{}, intr: map[string]int{}, pureBlock: map[*ssa.BasicBlock]bool{}, qsite: map[string]int{}}
+		w := &Worker{X: x, tb: NewTB(), S: s, funcs: map[*ssa.Function]*FuncStat{}, blocks: map[*ssa.BasicBlock]struct{}{}, intr: map[string]int{}, pureBlock: map[*ssa.BasicBlock]bool{}, qsite: map[string]int{}}
 		for c := 0; c < 256; c++ {
 			w.byteConsts[c] = w.tb.Const(8, uint64(c))
 		}
@@ -274,6 +276,9 @@ func (x *Explorer) Run() error {
 				x.Funcs[k] = g
 			}
 			g.Calls += fs.Calls
+		}
+		for b := range w.blocks {
+			x.Blocks[b] = struct{}{}
 		}
 		for k, n := range w.qsite {
 			x.QSites[k] += n
